@@ -1,3 +1,4 @@
+import ZvbiModel.Mux.PesShape
 import ZvbiModel.Mux.RawFeed
 /-!
 # Lemmas: with `raw == NULL`, `sp == NULL` the raw-capable model of the unchanged tree IS the
@@ -53,7 +54,8 @@ theorem generatePesR_null (cfg : Cfg) (st : RawSt) (hst : st.left = 0) (lines : 
       = match generatePes cfg lines mask pts with
         | .error (e, off) => .error (.base e, off)
         | .ok (pes, left) => .ok (pes, left, st) := by
-  unfold generatePesR generatePes
+  rw [generatePesR_both]
+  unfold generatePesRBoth generatePes
   have hnl : ¬ st.left > 0 := by omega
   simp only [hnl, if_false, genLoopR_null mask _ _ _ _ _ st lines hst]
   cases genLoop mask (fixedLengthFormat cfg.dataId) (lines.length + 1) (cfg.maxSize - 46) 0 lines with
